@@ -22,7 +22,21 @@ LEVEL.update({
  "C08": ("machine-checked over ALL histories (trees of guarded()/try/raise/operation events, any depth, any guard values and kinds): the guard triple after a history entered through guarded() equals the triple before it, on normal and exceptional exit (C08_restore); error suppression nests as a disjunction, the outermost guard is the condition; closed counterexample for bare add_guard/restore_guard pairs (block API); oracle probes the real module globals around every region and compares pairs of runs with different guard values", "5/C08",
          "Lean proof (mutual structural induction over event trees) + history correspondence + direct probing of runtime.guard/_ignore_errors/LinComb.ONE"),
 })
+LEVEL.update({
+ "C05": ("machine-checked, for every operand value, bitlength and modulus: the value returned by each traced integer/boolean operation equals the plain-Python expression (+, -, *, exact /, //, %, divmod, ** by a constant, <<, >>, &, |, ^ on non-negative operands, all six comparisons, zero tests, abs, selection, bit decomposition) whenever it returns, with totality lemmas for the core gadgets and operator-level dispatch theorems; every recorded deviation has a closed counterexample theorem and, where general, a theorem stating what is computed instead; oracle: plain-Python reference interpreter on the real code", "5/C05",
+         "Lean proof (value lemmas per gadget, bit-arithmetic inductions) + V-level correspondence + plain-Python reference oracle"),
+ "C14": ("machine-checked for all operand values, resolutions and operand-type combinations: fixed-point +,-,unary -,* by integers exact on representations, products floor(a*b/2^r), quotients floor(a*2^r/b), // and % on representations, comparisons agree with the order of the represented rationals, val() = representation/2^r, constructors scale by 2^r; general theorem + closed counterexample for the recorded deviation (integer secret on the left of < against a fixed-point value); oracle: Fraction reference on the real code", "5/C14",
+         "Lean proof (representation arithmetic over Int, order transfer to Q) + V-level correspondence + Fraction reference oracle"),
+ "C18": ("machine-checked over ALL scripts (any number of operations, termination event at any position, any earlier caught exits): prove runs at most once and over exactly the operations before the event; with autoprove off nothing is produced and the hook never fails; artefacts emitted iff exit status 0 for the well-behaved termination events (explicit decidable predicate); closed counterexamples for the recorded deviations (raise SystemExit, builtin exit, caught exits, sys.exit(256), sys.exit(0.0)); the model of the interposer and of CPython's exit rules is validated by one fresh interpreter per script on three file-writing backends", "5/C18",
+         "Lean proof (case analysis over a finite event alphabet, unbounded script) + subprocess correspondence (status, artefacts, stderr)"),
+ "C19": ("machine-checked over ANY registry and configuration (pre-imported set, environment value, loadability, IPython): a pre-imported registry module wins (first in registry order), a known environment name selects exactly its module or the import error propagates, an unknown name is reported and auto-detection follows, auto-detection picks the first loadable entry and is used only when nothing known was named; instantiated to the registry and import edges re-extracted from the source on every run (distinct names/modules, documented order); closed counterexample + general theorem for pre-imported derived modules; validated by one fresh interpreter per configuration", "5/C19",
+         "Lean proof (list reasoning over the registry) + regenerated registry/import edges + subprocess correspondence"),
+})
 NOTE = {
+ "C05": "trusted: Lean kernel; value lemmas are about the hint computations of the model, tied by V-level correspondence; documented domain for totality as stated in the evidence; deviations of the pinned code are listed in known_findings.json.",
+ "C14": "trusted: Lean kernel; floats are dyadic literals with exact scaling (IEEE rounding not modelled); val() is exact only below 2^53.",
+ "C18": "trusted: Lean kernel; CPython shutdown rules (which exits reach sys.exit/sys.excepthook, exit status per SystemExit argument, atexit) are modelled and validated only by the subprocess correspondence; libsnark's process_snark never exercised.",
+ "C19": "trusted: Lean kernel; CPython import machinery modelled (loadability as a predicate); libsnark modules never loadable here; 'complete interface' is checked by reflection in the harness only.",
  "C01": "trusted: Lean kernel; hand-written model tied by correspondence (bounded by the generator); fragment exclusions named in Spec/R1CS.lean (nested guarded regions, '/' next to a guarded region) are covered by correspondence + oracle only; user-selected ignore-errors mode is outside the property.",
  "C02": "trusted: Lean kernel; emission lemmas tie the algebra to the model's own output; unguarded states only; the oracle's field is 97 (search space only).",
  "C03": "trusted: Lean kernel; unguarded states; relation statements are in the field (integer ordering follows when operands are range-bounded).",
